@@ -174,3 +174,50 @@ package cty
 //@   ensures (forall ((k Int)) (! (=> (and (<= (Slice.off result) k) (< k (+ (Slice.off result) (Slice.len result)))) (and (wf_marks (select (vals_arr result) k)) (wf_ty (cty.Value.ty (select (vals_arr result) k))))) :pattern ((select (vals_arr result) k))))
 //@   ensures (=> (is_list_ty t) (forall ((k Int)) (! (=> (and (<= (Slice.off result) k) (< k (+ (Slice.off result) (Slice.len result)))) (= (select (vals_arr result) k) (mk.cty.Value (elem_ty t) (pl_seq_at val (- k (Slice.off result)))))) :pattern ((select (vals_arr result) k)))))
 //@   ensures (=> (is_tuple_ty t) (forall ((k Int)) (! (=> (and (<= (Slice.off result) k) (< k (+ (Slice.off result) (Slice.len result)))) (= (select (vals_arr result) k) (mk.cty.Value (tuple_at t (- k (Slice.off result))) (pl_seq_at val (- k (Slice.off result)))))) :pattern ((select (vals_arr result) k)))))
+//
+// Value sets (C13). The generic set package is not under contract: the member set of a ValueSet is the
+// uninterpreted observation vs_abs and the operations are the uninterpreted functions vs_union, ... of
+// their operands' member sets (assumed; the operations return new sets and panic for sets of different
+// element types). A verified function must not mutate a ValueSet in place (vs_abs is a function of the
+// struct value): Add and Remove therefore carry an unsatisfiable precondition.
+//@ func (cty.Value).AsValueSet
+//@   trusted
+//@   requires (wf_deep val)
+//@   panics (or (is_marked val) (not (or (is_list_ty (vty val)) (is_set_ty (vty val)) (is_map_ty (vty val)))) (not (is_known val)) (is_null val))
+//@   ensures (and (= (vs_abs result) (vs_of val)) (= (vs_ety result) (elem_ty (vty val))))
+//
+//@ func cty.SetValFromValueSet
+//@   trusted
+//@   ensures (and (= (vs_of result) (vs_abs s)) (= (vty result) (ty_set (vs_ety s))) (plain result))
+//
+//@ func (cty.ValueSet).Union
+//@   trusted
+//@   panics (not (ty_eq (vs_ety s) (vs_ety other)))
+//@   ensures (and (= (vs_abs result) (vs_union (vs_abs s) (vs_abs other))) (= (vs_ety result) (vs_ety s)))
+//
+//@ func (cty.ValueSet).Intersection
+//@   trusted
+//@   panics (not (ty_eq (vs_ety s) (vs_ety other)))
+//@   ensures (and (= (vs_abs result) (vs_inter (vs_abs s) (vs_abs other))) (= (vs_ety result) (vs_ety s)))
+//
+//@ func (cty.ValueSet).Subtract
+//@   trusted
+//@   panics (not (ty_eq (vs_ety s) (vs_ety other)))
+//@   ensures (and (= (vs_abs result) (vs_minus (vs_abs s) (vs_abs other))) (= (vs_ety result) (vs_ety s)))
+//
+//@ func (cty.ValueSet).SymmetricDifference
+//@   trusted
+//@   panics (not (ty_eq (vs_ety s) (vs_ety other)))
+//@   ensures (and (= (vs_abs result) (vs_symdiff (vs_abs s) (vs_abs other))) (= (vs_ety result) (vs_ety s)))
+//
+//@ func (cty.ValueSet).Add
+//@   trusted
+//@   requires false
+//
+//@ func (cty.ValueSet).Remove
+//@   trusted
+//@   requires false
+//
+//@ func (cty.Value).IsWhollyKnown
+//@   trusted
+//@   ensures (= result (wholly_known val))
